@@ -898,32 +898,195 @@ func c07Creates(g *ssa.Function, r *c07roles, d int) bool {
 	return false
 }
 
-// c07Missing: R07c.
-func c07Missing(c *core.Ctx, r *c07roles, fns []*ssa.Function, callersIn func(*ssa.Function) []*ssa.Call) {
-	for _, f := range fns {
-		// the segment -> node function: loads RawSegElem.Data and creates nodes
-		loadsData, creates := false, false
-		for _, b := range f.Blocks {
-			for _, in := range b.Instrs {
-				switch x := in.(type) {
-				case *ssa.FieldAddr:
-					if core.FieldOfAddr(x) == r.dataFld {
-						for _, u := range core.Referrers(x) {
-							if _, ok := u.(*ssa.UnOp); ok {
-								loadsData = true
-							}
+// c07LoadsData: g (or a helper of the package it calls) reads RawSegElem.Data.
+func c07LoadsData(g *ssa.Function, r *c07roles, d int, seen map[*ssa.Function]bool) bool {
+	if g == nil || g.Blocks == nil || d > 3 || seen[g] {
+		return false
+	}
+	seen[g] = true
+	for _, b := range g.Blocks {
+		for _, in := range b.Instrs {
+			switch x := in.(type) {
+			case *ssa.FieldAddr:
+				if core.FieldOfAddr(x) == r.dataFld {
+					for _, u := range core.Referrers(x) {
+						if _, ok := u.(*ssa.UnOp); ok {
+							return true
 						}
 					}
-				case *ssa.Field:
-					if core.FieldOfField(x) == r.dataFld {
-						loadsData = true
-					}
+				}
+			case *ssa.Field:
+				if core.FieldOfField(x) == r.dataFld {
+					return true
 				}
 			}
 		}
-		creates = c07Creates(f, r, 0)
-		res := f.Signature.Results()
-		if !loadsData || !creates || res.Len() != 2 || !c19IsError(res.At(1).Type()) {
+	}
+	for _, ci := range core.Calls(g) {
+		if h := ci.Common().StaticCallee(); h != nil && h != g && core.FuncPkg(h) == r.edi && c07LoadsData(h, r, d+1, seen) {
+			return true
+		}
+	}
+	return false
+}
+
+// c07IsSegToNode: (node, error) function of the package that reads raw element data and creates nodes.
+func c07IsSegToNode(f *ssa.Function, r *c07roles) bool {
+	if f == nil || f.Blocks == nil {
+		return false
+	}
+	res := f.Signature.Results()
+	if res.Len() != 2 || !c19IsError(res.At(1).Type()) {
+		return false
+	}
+	return c07Creates(f, r, 0) && c07LoadsData(f, r, 0, map[*ssa.Function]bool{})
+}
+
+func c07FieldOfLoad(v ssa.Value) *types.Var {
+	u, ok := v.(*ssa.UnOp)
+	if !ok || u.Op != token.MUL {
+		if fv, ok := v.(*ssa.Field); ok {
+			return core.FieldOfField(fv)
+		}
+		return nil
+	}
+	if fa, ok := u.X.(*ssa.FieldAddr); ok {
+		return core.FieldOfAddr(fa)
+	}
+	return nil
+}
+
+// c07BoolHelperResult: v is a bool result of a call to a helper of package edi (with a body).
+func c07BoolHelperResult(v ssa.Value, r *c07roles) (*ssa.Function, int) {
+	idx := 0
+	if ex, ok := v.(*ssa.Extract); ok {
+		v, idx = ex.Tuple, ex.Index
+	}
+	call, ok := v.(*ssa.Call)
+	if !ok || call.Call.IsInvoke() {
+		return nil, 0
+	}
+	h := call.Call.StaticCallee()
+	if h == nil || h.Blocks == nil || core.FuncPkg(h) != r.edi || idx >= h.Signature.Results().Len() {
+		return nil, 0
+	}
+	if b, ok := h.Signature.Results().At(idx).Type().Underlying().(*types.Basic); !ok || b.Kind() != types.Bool {
+		return nil, 0
+	}
+	return h, idx
+}
+
+// c07ElemTest: what the truth value pol of the boolean v says about the element declaration: noE = empty_if_missing
+// is false, noD = default is nil.
+func c07ElemTest(v ssa.Value, pol bool, r *c07roles) (noE, noD bool) {
+	if u, ok := v.(*ssa.UnOp); ok && u.Op == token.NOT {
+		v, pol = u.X, !pol
+	}
+	if c07FieldOfLoad(v) == r.emptyFld {
+		return !pol, false
+	}
+	if bo, ok := v.(*ssa.BinOp); ok && (bo.Op == token.NEQ || bo.Op == token.EQL) {
+		var other ssa.Value
+		switch {
+		case c07FieldOfLoad(bo.X) == r.defFld:
+			other = bo.Y
+		case c07FieldOfLoad(bo.Y) == r.defFld:
+			other = bo.X
+		}
+		if other != nil && core.IsNilConst(other) {
+			return false, (bo.Op == token.EQL) == pol
+		}
+	}
+	return false, false
+}
+
+// c07FactsAtEdge: facts about the element declaration established by the branches of h that dominate the edge
+// from -> to (to == nil: the block from itself).
+func c07FactsAtEdge(h *ssa.Function, from, to *ssa.BasicBlock, r *c07roles) (noE, noD bool) {
+	for _, t := range h.Blocks {
+		ifi, ok := t.Instrs[len(t.Instrs)-1].(*ssa.If)
+		if !ok {
+			continue
+		}
+		for k, pol := range []bool{true, false} {
+			succ := t.Succs[k]
+			holds := len(succ.Preds) == 1 && (succ == from || succ.Dominates(from))
+			if !holds && to != nil && t == from && succ == to && t.Succs[1-k] != to {
+				holds = true
+			}
+			if holds {
+				e, d := c07ElemTest(ifi.Cond, pol, r)
+				noE, noD = noE || e, noD || d
+			}
+		}
+	}
+	return
+}
+
+// c07OutcomeFacts: the facts about the element declaration that hold whenever result idx of the predicate helper h
+// is pol, over all returns (and all alternatives of a short-circuit value).
+func c07OutcomeFacts(h *ssa.Function, idx int, pol bool, r *c07roles) (noE, noD bool) {
+	noE, noD = true, true
+	n := 0
+	var visit func(v ssa.Value, from, to *ssa.BasicBlock, depth int)
+	visit = func(v ssa.Value, from, to *ssa.BasicBlock, depth int) {
+		if k, ok := v.(*ssa.Const); ok && k.Value != nil && k.Value.Kind() == constant.Bool {
+			if constant.BoolVal(k.Value) != pol {
+				return // this alternative never yields pol
+			}
+		}
+		if phi, ok := v.(*ssa.Phi); ok && depth < 4 {
+			for j, e := range phi.Edges {
+				visit(e, phi.Block().Preds[j], phi.Block(), depth+1)
+			}
+			return
+		}
+		n++
+		e1, d1 := c07FactsAtEdge(h, from, to, r)
+		e2, d2 := c07ElemTest(v, pol, r)
+		noE, noD = noE && (e1 || e2), noD && (d1 || d2)
+	}
+	for _, rt := range c19Returns(h) {
+		if idx < len(rt.Results) {
+			visit(rt.Results[idx], rt.Block(), nil, 0)
+		}
+	}
+	if n == 0 {
+		return false, false
+	}
+	return
+}
+
+// c07Missing: R07c.
+func c07Missing(c *core.Ctx, r *c07roles, fns []*ssa.Function, callersIn func(*ssa.Function) []*ssa.Call) {
+	for _, f := range fns {
+		// the segment -> node function: loads RawSegElem.Data and creates nodes (itself or through helpers of the
+		// package) and returns (node, error); of a call chain of such functions the innermost one is meant
+		if !c07IsSegToNode(f, r) {
+			continue
+		}
+		inner := false
+		seenG := map[*ssa.Function]bool{f: true}
+		var below func(g *ssa.Function, d int)
+		below = func(g *ssa.Function, d int) {
+			if d > 3 || inner {
+				return
+			}
+			for _, ci := range core.Calls(g) {
+				h := ci.Common().StaticCallee()
+				if h == nil || h.Blocks == nil || seenG[h] || core.FuncPkg(h) != r.edi {
+					continue
+				}
+				seenG[h] = true
+				if c07IsSegToNode(h, r) {
+					inner = true
+					return
+				}
+				below(h, d+1)
+			}
+		}
+		below(f, 0)
+		if inner {
 			continue
 		}
 		fk := core.FuncKey(f)
@@ -946,20 +1109,8 @@ func c07Missing(c *core.Ctx, r *c07roles, fns []*ssa.Function, callersIn func(*s
 		}
 		// (2) the missing-element block
 		type edge struct{ no *ssa.BasicBlock }
-		var noE, noD []*ssa.BasicBlock
-		fieldOfLoad := func(v ssa.Value) *types.Var {
-			u, ok := v.(*ssa.UnOp)
-			if !ok || u.Op != token.MUL {
-				if fv, ok := v.(*ssa.Field); ok {
-					return core.FieldOfField(fv)
-				}
-				return nil
-			}
-			if fa, ok := u.X.(*ssa.FieldAddr); ok {
-				return core.FieldOfAddr(fa)
-			}
-			return nil
-		}
+		var noE, noD, both []*ssa.BasicBlock
+		fieldOfLoad := c07FieldOfLoad
 		for _, b := range f.Blocks {
 			ifi, ok := b.Instrs[len(b.Instrs)-1].(*ssa.If)
 			if !ok {
@@ -975,6 +1126,26 @@ func c07Missing(c *core.Ctx, r *c07roles, fns []*ssa.Function, callersIn func(*s
 					noE = append(noE, b.Succs[0])
 				} else {
 					noE = append(noE, b.Succs[1])
+				}
+				continue
+			}
+			// the decision is delegated to a predicate helper of the package: what each outcome says about
+			// empty_if_missing / default is derived from the helper's returns
+			if h, idx := c07BoolHelperResult(cond, r); h != nil {
+				for _, pol := range []bool{true, false} {
+					e, d := c07OutcomeFacts(h, idx, pol, r)
+					succ := b.Succs[1]
+					if pol != neg {
+						succ = b.Succs[0]
+					}
+					switch {
+					case e && d:
+						both = append(both, succ)
+					case e:
+						noE = append(noE, succ)
+					case d:
+						noD = append(noD, succ)
+					}
 				}
 				continue
 			}
@@ -1015,6 +1186,11 @@ func c07Missing(c *core.Ctx, r *c07roles, fns []*ssa.Function, callersIn func(*s
 		}
 		for _, b := range noE {
 			add(b, noD)
+		}
+		for _, b := range both {
+			if len(b.Preds) == 1 {
+				miss = append(miss, b)
+			}
 		}
 		key := fk + " missing element without default"
 		if len(miss) != 1 {
@@ -1093,6 +1269,26 @@ func c07Missing(c *core.Ctx, r *c07roles, fns []*ssa.Function, callersIn func(*s
 						return
 					}
 					seen[v] = true
+					// the value is computed by a helper of the package: its returned values are the alternatives
+					{
+						cv, idx := v, 0
+						if ex, ok := cv.(*ssa.Extract); ok {
+							cv, idx = ex.Tuple, ex.Index
+						}
+						if hc, ok := cv.(*ssa.Call); ok && !hc.Call.IsInvoke() {
+							if h := hc.Call.StaticCallee(); h != nil && h.Blocks != nil && core.FuncPkg(h) == r.edi && len(seen) < 64 {
+								rets := c19Returns(h)
+								for _, rt := range rets {
+									if idx < len(rt.Results) {
+										leaves(rt.Results[idx])
+									}
+								}
+								if len(rets) > 0 {
+									return
+								}
+							}
+						}
+					}
 					switch x := v.(type) {
 					case *ssa.Phi:
 						for _, e := range x.Edges {
